@@ -317,29 +317,7 @@ public:
 	}
 	
 	~splinetable(){
-		if(ndim){
-			uint64_t ncoeffs=strides[0]*naxes[0];
-			for(uint32_t i=0; i<ndim; i++)
-				deallocate(knots[i]-order[i],nknots[i]+2*order[i]);
-			deallocate(knots,ndim);
-			deallocate(nknots,ndim);
-			deallocate(order,ndim);
-			if(extents){
-				deallocate(extents[0],2*ndim);
-				deallocate(extents,ndim);
-			}
-			if(periods)
-				deallocate(periods,ndim);
-			deallocate(coefficients,ncoeffs);
-			deallocate(naxes,ndim);
-			deallocate(strides,ndim);
-			for(uint32_t i=0; i<naux; i++){
-				deallocate(aux[i][0],strlen(&aux[i][0][0])+1);
-				deallocate(aux[i][1],strlen(&aux[i][1][0])+1);
-				deallocate(aux[i],2);
-			}
-			deallocate(aux,naux);
-		}
+		release();
 	}
 	
 	splinetable& operator=(splinetable&& other){
@@ -781,6 +759,59 @@ private:
 	
 	splinetable(const splinetable&);
 	splinetable& operator=(const splinetable& other);
+	
+	///Return all storage to the allocator and make the table empty.
+	///Also used to discard a partially constructed table (e.g. after a failed
+	///read), so every array which has not been allocated yet must be null.
+	void release(){
+		if(knots){
+			for(uint32_t i=0; i<ndim; i++){
+				if(knots[i])
+					deallocate(knots[i]-order[i],nknots[i]+2*order[i]);
+			}
+			deallocate(knots,ndim);
+		}
+		if(coefficients)
+			deallocate(coefficients,strides[0]*naxes[0]);
+		if(nknots)
+			deallocate(nknots,ndim);
+		if(order)
+			deallocate(order,ndim);
+		if(extents){
+			if(extents[0])
+				deallocate(extents[0],2*ndim);
+			deallocate(extents,ndim);
+		}
+		if(periods)
+			deallocate(periods,ndim);
+		if(naxes)
+			deallocate(naxes,ndim);
+		if(strides)
+			deallocate(strides,ndim);
+		if(aux){
+			for(uint32_t i=0; i<naux; i++){
+				if(!aux[i])
+					continue;
+				if(aux[i][0])
+					deallocate(aux[i][0],strlen(&aux[i][0][0])+1);
+				if(aux[i][1])
+					deallocate(aux[i][1],strlen(&aux[i][1][0])+1);
+				deallocate(aux[i],2);
+			}
+			deallocate(aux,naux);
+		}
+		ndim=0;
+		order=NULL;
+		knots=NULL;
+		nknots=NULL;
+		extents=NULL;
+		periods=NULL;
+		coefficients=NULL;
+		naxes=NULL;
+		strides=NULL;
+		naux=0;
+		aux=NULL;
+	}
 	
 	/*
 	 * The N-Dimensional tensor product basis version of splineeval.
